@@ -67,7 +67,8 @@ RULE = ("random ADMGs with 2-6 nodes (isolated nodes, bidirected-only nodes, bow
         "source domain (every no-domain line-10 witness plus an experimental root X0 in X and a domain with Z = {X0}), 6-7 node graphs with "
         "|X|, |Y| up to 4, activation of fractions nested in fractions / sums / products, the other key mismatches of the two dictionaries; "
         "every identify case in an argument form derived from the case (key insertion orders, graph constructor). A case is non-trivial when the graph has >=3 nodes and the run reaches one of "
-        "lines 4, 6, 9, 10 (recorded from the algorithm's own debug log).")
+        "lines 4, 6, 9, 10 (recorded from the algorithm's own debug log)."
+        " A SMALL-SCOPE stream: every labelled ADMG on 2-3 nodes x every query x one source domain with every (Z, W) by a fixed stride (1 in 96 quick, 1 in 8 thorough); stream uses6: siblings of the identify cases that declare an experiment, run with a spy on trso_line6 (hypothesis of trso_line6_unused_iff_id).")
 ASSUMPTIONS = [
     "trso_sound (first sentence of the property) is PROVED at full strength for the Lean model (Props/C05 trso_sound: every "
     "validated input over a well-formed acyclic graph with node names below 100 and non-empty outcomes, every run whatever "
